@@ -35,10 +35,12 @@ class MakeTasks(Source[Iterable[Task]]):
 
     def __init__(self,
         triples: Sequence[Tuple[Environment,Learner,Evaluator]],
-        restored: Optional[Result] = None) -> None:
+        restored: Optional[Result] = None,
+        finished: Sequence[Tuple[int,int,int]] = ()) -> None:
 
         self._triples = triples
         self._restored = restored or Result()
+        self._finished = set(map(tuple,finished)) #evaluations without any interactions aren't in restored
 
     def read(self) -> Iterable[Task]:
 
@@ -53,7 +55,7 @@ class MakeTasks(Source[Iterable[Task]]):
         restored_lrns = set(self._restored.learners['learner_id'])
         restored_envs = set(self._restored.environments['environment_id'])
         restored_vals = set(self._restored.evaluators['evaluator_id'])
-        restored_outs = set(zip(*self._restored.interactions[['environment_id','learner_id','evaluator_id']]))
+        restored_outs = set(zip(*self._restored.interactions[['environment_id','learner_id','evaluator_id']])) | self._finished
 
         learner_counts = Counter([l for _,l,_ in self._triples])
 
